@@ -1513,6 +1513,10 @@ UNITS = [
       ("call_rcu_thread", "src/urcu-call-rcu-impl.h"), ("call_rcu", "src/urcu-call-rcu-impl.h"),
       ("rcu_barrier", "src/urcu-call-rcu-impl.h"), ("_rcu_barrier_complete", "src/urcu-call-rcu-impl.h"),
       ("free_completion", "src/urcu-call-rcu-impl.h"),
+      ("call_rcu_before_fork", "src/urcu-call-rcu-impl.h"), ("call_rcu_after_fork_parent", "src/urcu-call-rcu-impl.h"),
+      ("call_rcu_after_fork_child", "src/urcu-call-rcu-impl.h"), ("call_rcu_data_free", "src/urcu-call-rcu-impl.h"),
+      ("call_rcu_data_init", "src/urcu-call-rcu-impl.h"), ("urcu_workqueue_create_worker", "src/workqueue.c"),
+      ("urcu_workqueue_destroy", "src/workqueue.c"),
       ("workqueue_thread", "src/workqueue.c"), ("urcu_workqueue_queue_work", "src/workqueue.c"),
       ("urcu_workqueue_flush_queued_work", "src/workqueue.c"), ("urcu_workqueue_pause_worker", "src/workqueue.c"),
       ("urcu_workqueue_resume_worker", "src/workqueue.c"), ("urcu_workqueue_wait_completion", "src/workqueue.c"),
